@@ -119,7 +119,12 @@ func symxC16File() {
 	} else {
 		rt.Assert(err != nil, "C16.file.non_matching_credentials_refused")
 	}
-	rt.Cover(want && n >= 3, "C16.file.admitted_with_three_or_more_entries")
+	if n >= 3 {
+		rt.Cover(want, "C16.file.admitted_with_three_or_more_entries")
+	}
+	if rt.Param("empty_mp", 0) == 1 {
+		rt.Cover(want && wantMP == DefaultMountPoint, "C16.file.admitted_into_the_default_mount_point")
+	}
 }
 
 // symxC16Static: the static store admits exactly the configured pair, in the default mount point.
